@@ -52,6 +52,10 @@ EXPECTED_PROBES = {'C19': ['nested_silent', 'exception_in_silent', 'reentrant_em
 def gen(rng, prop, tier):
     n_cb = rng.randint(3, 8)
     cbs = []
+    # event names: also names sharing letters with the `on_` prefix of by-name connection
+    EVENTS = rng.choice([['a', 'b'], ['a', 'b'], ['open', 'next'], ['n', '_x'], ['on', 'no_on_'],
+                         ['select', 'on_select']]) + ['progress', 'complete']
+    falsy = rng.random() < 0.3      # one sender is an empty container (falsy object)
     for i in range(n_cb):
         ev = rng.choice(EVENTS)
         cb = {'name': 'on_' + ev if rng.random() < 0.6 else 'cb%d' % i,
@@ -136,7 +140,8 @@ def gen(rng, prop, tier):
         elif k == 'r_reset':
             ops.append({'op': 'r_reset', 'r': rng.randrange(N_REPORTERS),
                         'm': rng.choice([None, None, 1, 2, 3])})
-    return {'engine': NAME, 'cfg': {'callbacks': cbs, 'use_global': use_global}, 'ops': ops}
+    return {'engine': NAME, 'cfg': {'callbacks': cbs, 'use_global': use_global,
+                                    'falsy_sender': falsy}, 'ops': ops}
 
 
 def validate(plan):
@@ -199,6 +204,13 @@ class Sender(object):
         return self.name
 
 
+class EmptySender(Sender):
+    """A sender that is a container with nothing in it: `bool(sender)` is False."""
+
+    def __len__(self):
+        return 0
+
+
 class CallbackRaised(Exception):
     pass
 
@@ -221,6 +233,8 @@ class World(object):
         else:
             self.em = pev.EventEmitter()
         self.senders = {'S%d' % i: Sender('S%d' % i) for i in range(N_SENDERS)}
+        if cfg.get('falsy_sender'):
+            self.senders['S1'] = EmptySender('S1')
         self.reporters = []
         for i in range(N_REPORTERS):
             r = pev.ProgressReporter()
